@@ -93,6 +93,7 @@ class Discipline:
         self.mutations = 0
         self.removed: list[typing.Any] = []  # connections taken out of the pool (evicted / expired / closed)
         self.io_under_lock: list[str] = []  # network operations issued while the pool's thread lock was held
+        self.early_wakeups: list[str] = []  # a parked request's event set before its connection was published
 
 
 class GuardedList(list):  # type: ignore[type-arg]
@@ -199,8 +200,23 @@ def make_pool(is_async: bool, net: Net, **kw: typing.Any) -> typing.Any:
         pool: typing.Any = AsyncGuardedPool(network_backend=AsyncSimBackend(net), **kw)
     else:
         pool = GuardedPool(network_backend=SimBackend(net), **kw)
+        vrt.ON_THREAD_EVENT_SET = _wakeup_hook(pool)
     net.pool = pool  # type: ignore[attr-defined]
     return pool
+
+
+def _wakeup_hook(pool: typing.Any) -> typing.Callable[[typing.Any], None]:
+    """Sync pool: threading.Event.set() is where a parked thread becomes runnable; it then reads the request's
+    connection without holding the pool lock, so the connection must have been stored before the event is set
+    (pre-emption between the two statements is otherwise an AssertionError in the woken thread)."""
+
+    def hook(ev: typing.Any) -> None:
+        for r in list(getattr(pool, "_requests", ())):
+            acq = getattr(r, "_connection_acquired", None)
+            if acq is not None and getattr(acq, "_event", None) is ev and getattr(r, "connection", None) is None:
+                pool._discipline.early_wakeups.append("Event.set() before PoolRequest.connection was stored")
+
+    return hook
 
 
 # ---------------------------------------------------------------------------
